@@ -376,7 +376,7 @@ bool ClockDevice::exec(const std::vector<std::string>& toks, int opIndex, Verdic
   if (toks.empty()) return false;
   const std::string& op = toks[0];
   if (!(op == "ADV" || op == "ADVDL" || op == "SET" || op == "GET" || op == "LOOP" || op == "SETUP"
-      || op == "REBOOT" || op == "RTC" || op == "DRAIN")) return false;
+      || op == "REBOOT" || op == "RTC" || op == "DRAIN" || op == "FORCE")) return false;
   if (!built) build();
   cov.count("ops");
 
@@ -410,6 +410,17 @@ bool ClockDevice::exec(const std::vector<std::string>& toks, int opIndex, Verdic
     } else {
       primary->setup();
     }
+  } else if (op == "FORCE") {
+    // forceSync(): the statement says nothing about it, so nothing is asserted about the call itself - it is a
+    // perturbation of the schedule (a blocking read of the reference in the middle of an asynchronous exchange).
+    // Whatever the clock shows afterwards is given to the control as well; everything the statement says about
+    // loop() must go on holding. (Without a reference clock forceSync() dereferences a null pointer: not exercised.)
+    if (!opts.armC14 || cfg.ref == 0) return true;
+    primary->forceSync();
+    acetime_t shown = primary->getNow();
+    if (control) { control->setNow(shown); (void)control->getNow(); }
+    lastPollT = t;
+    cov.count("fault.force_sync");
   } else if (op == "RTC") {
     rtc.ace_time::testing::FakeClock::setNow((acetime_t)tokInt(toks, 1, 0));
   } else if (op == "REBOOT") {
@@ -807,7 +818,10 @@ Trace genClockSync(uint64_t seed) {
     else if (r < 91) tr.lines.push_back("GET");
     else if (r < 96) tr.lines.push_back(fmt("SET %lld", (long long)(rng.chance(1, 8) ? (int64_t)kInvalid
         : (rng.chance(1, 4) ? drawRelatedValue(rng, refBase0) : drawSetValue(rng)))));
-    else if (r < 97) { tr.lines.push_back("SETUP"); if (rng.chance(1, 3)) tr.lines.push_back("SETUP"); }
+    else if (r < 97) {
+      if (rng.chance(1, 3)) tr.lines.push_back("FORCE");
+      else { tr.lines.push_back("SETUP"); if (rng.chance(1, 3)) tr.lines.push_back("SETUP"); }
+    }
     else if (r < 98) tr.lines.push_back(fmt("RTC %lld", (long long)drawRtcValue(rng)));
     else if (r < 99) {
       tr.lines.push_back(fmt("REBOOT boot=%llu", (unsigned long long)drawBoot(rng)));
